@@ -420,6 +420,12 @@ class MemorizedFunc(Logger):
         timestamp=None,
         cache_validation_callback=None,
     ):
+        # First, as it copies the attributes of func: they must not replace
+        # the ones that are set below.
+        try:
+            functools.update_wrapper(self, func)
+        except Exception:
+            pass  # Objects like ufunc don't like that
         Logger.__init__(self)
         self.mmap_mode = mmap_mode
         self.compress = compress
@@ -447,10 +453,6 @@ class MemorizedFunc(Logger):
                 pass
 
         self.timestamp = timestamp if timestamp is not None else time.time()
-        try:
-            functools.update_wrapper(self, func)
-        except Exception:
-            pass  # Objects like ufunc don't like that
         if inspect.isfunction(func):
             doc = pydoc.TextDoc().document(func)
             # Remove blank line
